@@ -25,7 +25,8 @@ Definition tok_in : N := 2%N.                     (* key "in" of the graph input
 Definition input_val : val := [tok_in; 0%N; 1%N].
 
 (* a node: identifier (>= 3, also its key token), predecessors in increasing order (START = 0
-   may be among them), behaviour 0 = ok, 1 = returns an error, 2 = panics *)
+   may be among them), behaviour 0 = ok, 1 = returns an error, 2 = panics, 3 = its state
+   post-handler fails, 4 = its state pre-handler fails *)
 Record node := mkn { n_id : nid; n_preds : list nid; n_fail : N }.
 Definition graph := list node.                    (* END is the node with n_id = 1 *)
 
@@ -87,6 +88,11 @@ Definition exec_log := list (nid * val).
 
 Definition is_end (nv : node * val) : bool := N.eqb (n_id (fst nv)) END.
 Definition failed (nv : node * val) : bool := negb (N.eqb (n_fail (fst nv)) 0).
+(* behaviour 4: the state pre-handler of the node fails.  taskManager.submit runs the pre-processors
+   of all new tasks before it starts any of them and returns at the first one that fails
+   (graph_manager.go:306-317; since fix 559768a the error is that node's error): the run fails,
+   none of the new tasks is started, the tasks already in flight (eager mode) stay in flight *)
+Definition prefail (nv : node * val) : bool := N.eqb (n_fail (fst nv)) 4.
 
 (* calculateNextTasks on a completed list *)
 Inductive next := NReturn (v : val) | NTasks (ts : list (node * val)) (s : cstate).
@@ -108,6 +114,7 @@ Fixpoint run_batch (ord : list (nid * val) -> list (nid * val)) (m : mode) (g : 
   match fuel with
   | O => (OFuel, log)
   | S f =>
+      if existsb prefail tasks then (OFail, log) else   (* submit fails: nothing of the step is started *)
       let log' := log ++ log_of tasks in
       if existsb failed tasks then (OFail, log') else
       match tasks with
@@ -154,7 +161,9 @@ Fixpoint run_eager (pick : list (node * val) -> nat) (g : graph) (fuel : nat)
           if failed t then (OFail, log, ids_of (remove_nth i running)) else
           match calc_next Dag g s [run_task t] with
           | NReturn v => (ODone v, log, ids_of (remove_nth i running))
-          | NTasks ts s' => run_eager pick g f s' (remove_nth i running ++ ts) (log ++ log_of ts)
+          | NTasks ts s' =>
+              if existsb prefail ts then (OFail, log, ids_of (remove_nth i running))
+              else run_eager pick g f s' (remove_nth i running ++ ts) (log ++ log_of ts)
           end
       end
   end.
@@ -162,7 +171,7 @@ Fixpoint run_eager (pick : list (node * val) -> nat) (g : graph) (fuel : nat)
 Definition eager (pick : list (node * val) -> nat) (g : graph) (fuel : nat) : outcome * exec_log * list nid :=
   match start_next Dag g with
   | NReturn v => (ODone v, [], [])
-  | NTasks ts s => run_eager pick g fuel s ts (log_of ts)
+  | NTasks ts s => if existsb prefail ts then (OFail, [], []) else run_eager pick g fuel s ts (log_of ts)
   end.
 
 (* two particular schedules: the oldest running task first; the oldest running task that does
